@@ -174,6 +174,7 @@ impl Scenario for RollbackReuse {
                 dup_permille: 40,
                 hold_permille: 40,
                 hold_max_ms: 400,
+                ..Default::default()
             }
         } else {
             UniformNet {
@@ -209,6 +210,8 @@ impl Scenario for RollbackReuse {
             kv_faults: vec![],
             crashes: vec![],
             restart_after_us: 300 * MS,
+            cancels: vec![],
+            calm_at_us: None,
         };
 
         let mut track = Track::new();
@@ -326,6 +329,7 @@ impl Scenario for RemoveFabric {
                 dup_permille: 40,
                 hold_permille: 40,
                 hold_max_ms: 400,
+                ..Default::default()
             }
         } else {
             UniformNet {
@@ -367,6 +371,8 @@ impl Scenario for RemoveFabric {
             kv_faults: vec![],
             crashes: vec![],
             restart_after_us: 300 * MS,
+            cancels: vec![],
+            calm_at_us: None,
         };
         let mut track = Track::new();
         let run = drive_full_with(seed, cfg, &mut |t, states| {
